@@ -16,9 +16,9 @@ class Ctx(object):
         self.axioms = []          # list of (name, z3 BoolRef)
         self._cache = {}
         self.Ref = z3.DeclareSort("Ref")
-        self.Tok = z3.DeclareSort("Tok")
         self.Val = z3.DeclareSort("Val")
         self.Str = z3.DeclareSort("Str")
+        self.Tok = self.Str      # tokens of tries are opaque strings: one sort
         self.Key = z3.DeclareSort("Key")
         self.Obj = z3.DeclareSort("Obj")
         self.null = z3.Const("null", self.Ref)
@@ -114,11 +114,7 @@ class TStr(T):
         return cx.Str
 
 
-class TTok(T):
-    name = "Tok"
-
-    def sort(self, cx):
-        return cx.Tok
+TTok = TStr   # "Tok" in contracts is an alias of Str (opaque token)
 
 
 class TVal(T):
